@@ -31,8 +31,12 @@ GRACE = 15
 L1 = b'</a>;rt="x"'
 L2 = b'</b>;if="y",</c>'
 L3 = b'</q>;title="say \\"hi\\"",</r>'       # a quoted-string with escaped quotes
-LINKS = {"L1": (L1, ["/a"]), "L2": (L2, ["/b", "/c"]), "L3": (L3, ["/q", "/r"])}
-LINK_ATTRS = {"/a": {"rt": "x"}, "/b": {"if": "y"}, "/c": {}, "/q": {"title": 'say "hi"'}, "/r": {}}
+# (RFC 9176 section 5.3 example) a link whose target is elsewhere and whose anchor is relative: the anchor resolves against the
+# registration's base, not against the target
+L4 = b'<http://www.example.com/sensors/t123>;anchor="/sensors/temp";rel="describedby",</t>;anchor="x/y"'
+LINKS = {"L1": (L1, ["/a"]), "L2": (L2, ["/b", "/c"]), "L3": (L3, ["/q", "/r"]), "L4": (L4, ["http://www.example.com/sensors/t123", "/t"])}
+LINK_ANCHORS = {"http://www.example.com/sensors/t123": "/sensors/temp", "/t": "/x/y"}
+LINK_ATTRS = {"http://www.example.com/sensors/t123": {"rel": "describedby"}, "/t": {}, "/a": {"rt": "x"}, "/b": {"if": "y"}, "/c": {}, "/q": {"title": 'say "hi"'}, "/r": {}}
 RDP = ["resourcedirectory", ""]
 EPL = ["endpoint-lookup", ""]
 RSL = ["resource-lookup", ""]
@@ -42,6 +46,9 @@ OPS = [
     ("reg", "e2", None, 60, "L2", None), ("reg", "e1", None, None, "L1", "x=1"),
     # parameter values and link attributes that need quoting in a lookup result: a double quote, a trailing backslash
     ("reg", "e2", None, 60, "L3", 'x=a"b'), ("reg", "e1", "d1", 60, "L1", "x=q\\"),
+    ("reg", "e2", None, 120, "L4", None),
+    # the smallest lifetime there is: gone as soon as the grace period is over
+    ("reg", "e1", None, 0, "L1", None), ("upd", 0, "lt=0"),
     ("badreg", "noep"), ("badreg", "lt=abc"), ("badreg", "twolt"), ("badreg", "rt=x"), ("badreg", "body"), ("badreg", "cf"),
     ("upd", 0, "lt=120"), ("upd", 0, "x=2"), ("upd", 0, "base=coap://[2001:db8::77]:1234"),
     # a valid new lifetime next to a parameter that makes the whole update invalid
@@ -135,7 +142,7 @@ def apply(st, op):
             del st.model[k]
     elif op[0] == "reg":
         _, epn, d, lt, links, extra = op
-        q = ["ep=" + epn] + (["d=" + d] if d else []) + (["lt=%d" % lt] if lt else []) + ([extra] if extra else [])
+        q = ["ep=" + epn] + (["d=" + d] if d else []) + (["lt=%d" % lt] if lt is not None else []) + ([extra] if extra else [])
         src = 1 if epn == "e1" else 2
         r = request(st, POST, RDP, q, LINKS[links][0], 40, ep=src)
         key = (epn, d)
@@ -155,7 +162,7 @@ def apply(st, op):
             if extra:
                 k, v = extra.split("=", 1)
                 params[k] = [v]
-            st.model[key] = {"loc": loc, "params": params, "links": links, "lt": lt or 90000, "written": now,
+            st.model[key] = {"loc": loc, "params": params, "links": links, "lt": 90000 if lt is None else lt, "written": now,
                              "base": "coap://[2001:db8::%x]:40000" % src}
             if loc not in st.locs:
                 st.locs.append(loc)
@@ -279,8 +286,14 @@ def check_lookups(st):
     wantr = []
     for key, m in lv.items():
         for href in LINKS[m["links"]][1]:
-            wantr.append(m["base"] + href)
+            wantr.append(href if "://" in href else m["base"] + href)
     gotr = [h for h, at in ress]
+    # anchors (where a link has one) come back resolved against the registration's base
+    wanta = sorted((href if "://" in href else m["base"] + href, m["base"] + LINK_ANCHORS[href])
+                   for key, m in lv.items() for href in LINKS[m["links"]][1] if href in LINK_ANCHORS)
+    gota = sorted((h, at.get("anchor")) for h, at in ress if h.split("]:40000")[-1] in LINK_ANCHORS or h in LINK_ANCHORS or any(h.endswith(k) for k in LINK_ANCHORS))
+    if gota != wanta:
+        viol(st, "resource-lookup", wanta, gota, "cli/rd.py:Registration.get_based_links", "anchor")
     if sorted(gotr) != sorted(wantr):
         kind = "more" if len(gotr) > len(wantr) else "fewer" if len(gotr) < len(wantr) else "different"
         viol(st, "resource-lookup", sorted(wantr), sorted(gotr), "cli/rd.py:ResourceLookupInterface", kind)
@@ -306,7 +319,7 @@ def check_lookups(st):
         return
     # resource lookups filtered by link attributes and by registration parameters; endpoint lookups filtered by link attributes
     def links_of(k, m):
-        return [(m["base"] + h, LINK_ATTRS[h]) for h in LINKS[m["links"]][1]]
+        return [((h if "://" in h else m["base"] + h), LINK_ATTRS[h]) for h in LINKS[m["links"]][1]]
     for flt, pred in (("rt=x", lambda k, m, a: a.get("rt") == "x"), ("if=y", lambda k, m, a: a.get("if") == "y"),
                       ("ep=e1", lambda k, m, a: k[0] == "e1"), ("d=d1", lambda k, m, a: k[1] == "d1"),
                       (("rt=x", "ep=e2"), lambda k, m, a: a.get("rt") == "x" and k[0] == "e2"),
